@@ -386,6 +386,22 @@ func runCase(cs *caseT) string {
 	if mapD != mapPart {
 		ctor = "CONSTRUCTION_DIFF direct: " + mapD
 	}
+	// 3b. the same map again (fresh copies; Go's map iteration order differs from run to run): what is handed on
+	// is a function of the input, not of the order in which the series happen to be visited
+	for rep := 0; rep < 4 && ctor == "same" && len(full) == 1; rep++ {
+		capV.maps = nil
+		th.DispatchMetricMap(ctx, inputMap(cs.entries))
+		again := "NONE"
+		if len(capV.maps) == 1 {
+			again = renderMap(capV.maps[0], group)
+		} else if len(capV.maps) > 1 {
+			again = fmt.Sprintf("CALLS %d", len(capV.maps))
+		}
+		if again != mapPart {
+			ctor = "UNSTABLE again: " + again
+		}
+	}
+	capV.maps = nil
 
 	// 4. events
 	evs := []string{}
@@ -678,6 +694,9 @@ func randomCase(r *hx.Rng, kinds map[string]int) *caseT {
 			tags = append([]string{}, base...)
 			if r.Bool() {
 				tags = append(tags, hx.Pick(r, tagPool[:3]))
+			} else if len(cs.static) > 0 && r.Bool() {
+				// ... or plus a static tag: the two coincide once the static tags are added
+				tags = append(tags, hx.Pick(r, cs.static))
 			}
 			r.Shuffle(len(tags), func(i, j int) { tags[i], tags[j] = tags[j], tags[i] })
 			if r.Chance(1, 3) && i > 0 {
